@@ -8,8 +8,21 @@ RSess(f)  == << <<"OpenR", f>>, <<"Read", f>>, <<"Close", f>> >>
 FileSessions(f) == {WSess(f), WnSess(f), RSess(f)} \cup
     {S(op, f) : op \in {"FileFlush", "FileSync", "Size", "GetNode", "Mode", "ModTime", "SetMode", "SetModTime"}}
 DirSessions == {S(op, "f1") : op \in {"List", "ListNames", "Lookup", "Mkdir", "Unlink"}}
+\* operations of the sub-directory d that leave every other operation's program unchanged (SubFlush empties
+\* d's cache, Mv/Mkdir/AddChild change the listing: those take part in M at program level only)
+SubSessions == {S(op, "f1") : op \in {"SubSetMode", "SubSetModTime", "ChmodSub", "SubMode", "SubGetNode", "SubList",
+                                       "SubLookup", "SubUnlink"}}
+\* descriptor sessions with the other write APIs in the descriptor states created / dirty / flushed
+WaSess(f) == << <<"OpenW", f>>, <<"WriteAt", f>>, <<"FdFlush", f>>, <<"Trunc", f>>, <<"FdFlush", f>>,
+                <<"WriteAt", f>>, <<"Close", f>> >>
+FdS(o, f, b) == << <<o, f>> >> \o [i \in 1..Len(b) |-> <<b[i], f>>] \o << <<"Close", f>> >>
+FdSessions == {FdS("OpenW", "f1", <<"FdFlush", "WriteAt">>), FdS("OpenWn", "f1", <<"FdFlush", "Trunc">>),
+               FdS("OpenW", "f1", <<"Trunc", "WriteAt">>), FdS("OpenWn", "f1", <<"WriteAt", "FdFlush">>),
+               FdS("OpenW", "f1", <<"WriteAt">>), FdS("OpenWn", "f1", <<"Trunc">>)}
 Two(a, b) == a \o b
 Base == FileSessions("f1") \cup DirSessions \cup {WSess("f2"), S("SetMode", "f2"), S("Mode", "f2"), RSess("f2")}
+        \cup SubSessions \cup FdSessions
+        \cup {WaSess("f1"), WSess("f3"), RSess("f3"), S("SetMode", "f3"), S("FileFlush", "f3"), S("Mode", "f3")}
 Sess == Base \cup {Two(WSess("f1"), RSess("f1")), Two(S("SetModTime", "f1"), RSess("f1")), Two(S("Mode", "f1"), WnSess("f1"))}
 GenScen == {<<a, b>> : a \in Sess, b \in Sess} \cup
            {<<a, b, c>> : a \in Sess, b \in {WSess("f1"), S("Mode", "f1"), S("SetMode", "f1"), S("List", "f1")}, c \in Sess}
